@@ -80,6 +80,7 @@ int main(void) {
       if (rb + 2 == n) __CPROVER_assert(thr, "empty port after ']:' is rejected");
       else { __CPROVER_assert(!thr && ap.family == 10 && ap.hasColon == 1 && ap.host.p == t && ap.host.len == rb + 1, "[literal]:port: host is the bracketed literal, family AF_INET6");
              __CPROVER_assert(ap.port.p == t + rb + 2 && ap.port.len == n - rb - 2, "[literal]:port: port is the text after ']:'"); } }
+    else __CPROVER_assert(thr, "text after the closing bracket of an IPv6 literal that is not ':port' is rejected (malformed literal)");
   }
 #elif defined(H_INIT)
   *(u16*)(addr_obj + OFF_Address_port) = 7;
